@@ -81,6 +81,12 @@ inline StratState fresh_state(int kind)
   return read_strat(1, smooth::DisneyStrategy{});
 }
 
+/// Start coordinates of R^n-type arguments of the convergence-judged families are either exactly zero or at least 1e-9 in
+/// magnitude: dr_numerical scales its step with |x_j| for Eigen vectors, so a coordinate like 1e-17 yields a step of 1e-25 and
+/// a useless Jacobian column. That is the accuracy range of numerical differentiation (property C08: "coordinates zero or
+/// 0.1...10"), not a property of minimize; such starts are outside the premise of the convergence clause and are not generated.
+inline double snap(double x) { return std::fabs(x) < 1e-9 ? 0.0 : x; }
+
 // ------------------------------------------------------------------ flattening of argument tuples
 inline void flat(double x, std::vector<double> & o) { o.push_back(x); }
 template<typename D>
@@ -222,6 +228,7 @@ struct Problem
   int nres        = 1;       // number of residuals
   std::vector<char> basin;   // per start: inside the basin (premise of the convergence clause)
   std::vector<char> hist;    // per start: member of the history (prefix-solve) menu
+  bool deep       = false;   // representative used for the judged menu of depth-2 history states
   std::function<RunOut(int, int, size_t, double, double, const StratState &)> run;
   std::function<std::string(int)> start_desc;
 };
